@@ -80,6 +80,10 @@ def gen(rng, tier):
             yield {"segs": [["list", ["filter", ["not", ["fn", fn, ["self", ["sel", ["name", "s"]]], ["lit", pat]]]]]], "doc": doc, "seed": 8}
             yield {"segs": [["list", ["filter", ["op", "&&", ["fn", fn, ["self", ["sel", ["name", "s"]]], ["self", ["sel", ["name", "p"]]]],
                                                   ["self", ["sel", ["name", "s"]]]]]]], "doc": doc, "seed": 9}
+    # the pattern comes from the node: unusable patterns on consecutive nodes, after usable ones (each is LogicalFalse)
+    from . import c09 as C09
+    for c in C09.pattern_history_cases():
+        yield {"segs": c["query"]["first"]["segs"], "doc": c["doc"], "seed": 12}
     names = ["a", "b", "c", "d", "0", "1"]
     n = 12000 if thorough else 1200
     for _ in range(n):
